@@ -117,7 +117,24 @@ def r20_2(ctx, fx):
     ev = fn.aggregates(r"BitswapEvent$", "Response")
     ctx.anchor("R20.2", "on_message_received: BitswapEvent::Response aggregate", len(ev), 1, cfg=fx.cfg)
     pushes = [c for c in fn.calls(r"Vec::push$") if "ResponseType" in fn.locals[(c.args[1].get("m") or c.args[1].get("c") or [0])[0]]]
-    ctx.anchor("R20.2", "on_message_received: pushes of ResponseType", len(pushes), 2, cfg=fx.cfg)
+    # `responses.extend(payload.into_iter().filter_map(block_to_response))`: the blocks arrive through the verifying function as well
+    exts = [c for c in fn.calls(r"Extend(<.*>)?>?::extend$|Vec(<.*>)?::extend$") if len(c.args) > 1 and "ResponseType" in fn.locals[(c.args[0].get("m") or c.args[0].get("c") or [0])[0]]]
+    for i, c in enumerate(exts):
+        rs = guards.rootstrs(fn, c.args[1])
+        ok = any(re.search(r"Iterator>?::filter_map$", x) for x in rs) and any(x.startswith("const:fn:") and x.endswith("bitswap::block_to_response") for x in rs)
+        if not ok and any(re.search(r"Iterator>?::filter_map$", x) for x in rs):
+            # .. or through a closure `|block| block_to_response(peer, block)` whose result is that call's result
+            for fm in fn.calls(r"Iterator>?::filter_map$"):
+                q = fm.args[1].get("m") or fm.args[1].get("c")
+                d = fn.single_def(q[0]) if q and len(q) == 1 else None
+                if d is not None and d[1] == "assign" and d[2]["rv"]["r"] == "agg" and d[2]["rv"].get("closure") and fx.fn(d[2]["rv"]["closure"]) is not None:
+                    clf = fx.fn(d[2]["rv"]["closure"])
+                    ctx.bodies.add((fx.cfg, clf.key))
+                    r0 = guards.rootstrs(clf, {"c": [0]})
+                    if any(x == "call:" + BS + "block_to_response" or x.endswith("bitswap::block_to_response") for x in r0) and ("call", fm.name) in fn.roots(c.args[1]):
+                        ok = True
+        ctx.ob("R20.2", "on_message_received/extended-responses#%d-come-from-block_to_response" % i, ok, site=fn.site(c.node), cfg=fx.cfg, detail=str(sorted(x for x in rs if "fn:" in x or "filter" in x)))
+    ctx.anchor("R20.2", "on_message_received: pushes of ResponseType", len(pushes) + len(exts), 2, cfg=fx.cfg)
     for i, c in enumerate(pushes):
         rs = fn.roots(c.args[1])
         from_btr = any(r[0] == "call" and r[1].endswith("bitswap::block_to_response") for r in rs)
